@@ -12,6 +12,12 @@ precisions) executed in one freshly forked process.  Every step is measured: the
 function of that step's request, and the oracle demands that the step's file holds exactly the caller's cards
 plus the documented standard cards of that object - so anything an earlier save leaves behind (module- or
 class-level state) shows up as a disagreement whose replay is the history up to that step.
+
+Results are fed back in: what read_fits_spec / read_spec / read_ascii_spec returned (byte-swapped arrays for
+FITS) is written again and read again for up to three laps, objects returned by from_file are saved and loaded
+again, and first-lap arrays come in every memory layout a caller may hold for the same numbers (native or
+byte-swapped dtype, strided or reversed views, read-only, lists inside a Quantity).  The model's line for a lap is
+a pure function of the values, their float32/float64 class and the precision rule.
 """
 import functools
 import json
@@ -125,6 +131,8 @@ def table_names():
 def model_spec(us):
     """unit description of a case -> UnitSpec JSON of the model"""
     k = us['kind']
+    if k in ('quantity_id', 'kw_unit_id'):
+        return {'unit': us['id']}
     if k in ('quantity', 'kw_unit'):
         return {'unit': unit_id(us['name'])}
     if k == 'kw_str':
@@ -132,7 +140,18 @@ def model_spec(us):
     return 'other'
 
 
+def spec_unit_id(us):
+    """generic string of the unit a unit description stands for (None: a string spec / invalid)"""
+    if us['kind'] in ('quantity_id', 'kw_unit_id'):
+        return us['id']
+    if us['kind'] in ('quantity', 'kw_unit'):
+        return unit_id(us['name'])
+    return None
+
+
 def spec_strings(us):
+    if us['kind'] in ('quantity_id', 'kw_unit_id'):
+        return [us['id'], us['id'].upper()]
     if us['kind'] in ('quantity', 'kw_unit'):
         i = unit_id(us['name'])
         return [i, i.upper()]
@@ -205,11 +224,113 @@ def inspect_fits(fn):
     return out
 
 
-def quantity_or_array(vals, code, us):
+LAYOUTS = ['native', 'swapped_astype', 'swapped_view', 'strided', 'reversed_view', 'readonly', 'list_quantity']
+
+
+def apply_layout(a, layout):
+    """the same numbers in another memory layout a caller may hold"""
+    if layout == 'swapped_astype':
+        return a.astype(a.dtype.newbyteorder('>' if a.dtype.byteorder in ('=', '<', '|') else '<'))
+    if layout == 'swapped_view':
+        return a.byteswap().view(a.dtype.newbyteorder())
+    if layout == 'strided':
+        big = np.full(2 * len(a), 77, dtype=a.dtype)
+        big[::2] = a
+        return big[::2]
+    if layout == 'reversed_view':
+        return a[::-1].copy()[::-1]
+    if layout == 'readonly':
+        b = a.copy()
+        b.flags.writeable = False
+        return b
+    return a
+
+
+def quantity_or_array(vals, code, us, layout='native'):
     a = arr(vals, code)
+    if layout == 'list_quantity':
+        if us['kind'] == 'quantity' and code == 'f8':
+            return [float(x) for x in a] * astropy_unit(us['name'])
+        layout = 'native'
+    a = apply_layout(a, layout)
     if us['kind'] == 'quantity':
         return a * astropy_unit(us['name'])
     return a
+
+
+def finite(xs):
+    return all(isinstance(x, float) and math.isfinite(x) for x in xs)
+
+
+def dtype_code(char):
+    return {'f': 'f4', 'd': 'f8'}.get(char, 'other')
+
+
+def flag_kwargs(d):
+    kw = {}
+    for k, name in (('trim', 'trim_zero'), ('pad', 'pad_zero_ends')):
+        if d.get(k) is not None:
+            kw[name] = d[k]
+    if d.get('precision') is not None:
+        kw['precision'] = d['precision']
+    return kw
+
+
+def run_laps(case, w, f):
+    """laps 2..n of a table: what the previous read returned (Quantities holding the file's byte-swapped arrays,
+    or the ASCII reader's arrays) is written again as it is - as Quantities, or as bare arrays plus unit
+    keywords - and read again"""
+    from synphot import specio
+    outs = []
+    for k, lap in enumerate(case.get('laps') or [], start=2):
+        inp = {'wave': np.asarray(w.value, dtype=np.float64).tolist(), 'flux': np.asarray(f.value, dtype=np.float64).tolist(),
+               'wchar': w.value.dtype.char, 'fchar': f.value.dtype.char, 'wstr': w.value.dtype.str,
+               'fstr': f.value.dtype.str, 'wunit': w.unit.to_string(), 'funit': f.unit.to_string()}
+        if not (finite(inp['wave']) and finite(inp['flux'])) or np.ndim(w.value) != 1:
+            break
+        o = {'input': inp, 'write': None, 'read': None}
+        outs.append(o)
+        fn = scratch_path(case, '_l%d.fits' % k)
+        try:
+            try:
+                if lap['feed'] == 'quantity':
+                    specio.write_fits_spec(fn, w, f, **flag_kwargs(lap))
+                else:
+                    specio.write_fits_spec(fn, w.value, f.value, wave_unit=w.unit, flux_unit=f.unit, **flag_kwargs(lap))
+                o['write'] = {'ok': inspect_fits(fn)}
+            except Exception as e:  # noqa
+                o['write'] = outcome_err(e)
+                break
+            try:
+                hdr, w, f = specio.read_fits_spec(fn)
+                o['read'] = {'ok': {'wunit': w.unit.to_string(), 'funit': f.unit.to_string(),
+                                    'wave': np.asarray(w.value, dtype=np.float64).tolist(),
+                                    'flux': np.asarray(f.value, dtype=np.float64).tolist(),
+                                    'wdtype': w.value.dtype.char, 'fdtype': f.value.dtype.char,
+                                    'header': {k2: enc(v) for k2, v in hdr.items() if k2 not in ('COMMENT', 'HISTORY', '')}}}
+            except Exception as e:  # noqa
+                o['read'] = outcome_err(e)
+                break
+        finally:
+            cleanup(fn)
+    return outs
+
+
+def lap_steps(case, out):
+    """laps 2..n of a table as requests of their own: (derived fits_rt case, outcome).  The derived case is what
+    the lap asked for: the values and dtype class the previous read returned, its units, the lap's options."""
+    res = []
+    for k, (lap, o) in enumerate(zip(case.get('laps') or [], out.get('laps') or []), start=2):
+        inp = o['input']
+        kind = 'quantity_id' if lap['feed'] == 'quantity' else 'kw_unit_id'
+        dc = {'op': 'fits_rt', 'id': case['id'], '_lap': k, '_fname': 'c%07d_l%d.fits' % (case['id'], k),
+              'wunit': {'kind': kind, 'id': inp['wunit']}, 'funit': {'kind': kind, 'id': inp['funit']},
+              'wdt': dtype_code(inp['wchar']), 'fdt': dtype_code(inp['fchar']), 'wave': qs(inp['wave']), 'flux': qs(inp['flux']),
+              'precision': lap.get('precision'), 'trim': lap.get('trim'), 'pad': lap.get('pad'), 'eps': None,
+              'pri': None, 'ext': None, 'wcol': None, 'fcol': None, 'rwcol': None, 'rfcol': None,
+              'via': 'read_fits_spec', 'layout': 'fed back %s/%s' % (inp['wstr'], inp['fstr'])}
+        res.append((dc, {'write': o['write'], 'read': o['read']}))
+    return res
 
 
 def unit_kw(us):
@@ -256,8 +377,9 @@ def impl_fits_rt(case):
         with warnings.catch_warnings():
             warnings.simplefilter('ignore')
             try:
-                specio.write_fits_spec(fn, quantity_or_array(case['wave'], case['wdt'], case['wunit']),
-                                       quantity_or_array(case['flux'], case['fdt'], case['funit']), **kw)
+                lay = case.get('layout') or ['native', 'native']
+                specio.write_fits_spec(fn, quantity_or_array(case['wave'], case['wdt'], case['wunit'], lay[0]),
+                                       quantity_or_array(case['flux'], case['fdt'], case['funit'], lay[1]), **kw)
                 out['write'] = {'ok': inspect_fits(fn)}
             except Exception as e:  # noqa
                 out['write'] = outcome_err(e)
@@ -277,6 +399,8 @@ def impl_fits_rt(case):
                                       'header': {k: enc(v) for k, v in hdr.items() if k not in ('COMMENT', 'HISTORY', '')}}}
             except Exception as e:  # noqa
                 out['read'] = outcome_err(e)
+                return out
+            out['laps'] = run_laps(case, w, f)
     finally:
         cleanup(fn)
     return out
@@ -297,63 +421,93 @@ def build_object(case):
     return ReddeningLaw, ReddeningLaw(Empirical1D, points=pts, lookup_table=vals, **kw)
 
 
+def obj_lap_case(case, k):
+    """lap k >= 2 of an object: the object from_file returned is saved again (default wavelengths = the waveset
+    it got from the file) and loaded again.  A request of its own, built from the case alone."""
+    lap = case['laps'][k - 2]
+    return {'op': 'obj_rt', 'id': case['id'], '_lap': k, '_fname': 'c%07d_l%d.fits' % (case['id'], k),
+            'cls': case['cls'], 'pts': None, 'vals': None, 'flux_unit': lap.get('flux_unit') if case['cls'] == 'source' else None,
+            'wl': None, 'wl_unit': None, 'trim': lap.get('trim'), 'pad': lap.get('pad'), 'precision': lap.get('precision'),
+            'pri': None, 'ext': None, 'meta': None}
+
+
+def obj_one_lap(cls, obj, case, fn):
+    """sample, save, load again, sample the loaded object at the stored wavelengths; returns (outcome, loaded)"""
+    out = {'sampled': None, 'write': None, 'reload': None}
+    wl = None
+    if case['wl'] is not None:
+        wl = apply_layout(np.array([float(unq(x)) for x in case['wl']]), case.get('wl_layout') or 'native')
+        if case['wl_unit']:
+            wl = wl * astropy_unit(case['wl_unit'])
+    akw = {}
+    if case['cls'] == 'source' and case['flux_unit'] is not None:
+        akw['flux_unit'] = case['flux_unit']
+    try:
+        w, y = obj._get_arrays(wl, **akw)
+        out['sampled'] = {'ok': {'wave': np.asarray(w.value, float).tolist(), 'flux': np.asarray(y.value, float).tolist(),
+                                 'wunit': w.unit.to_string(), 'funit': y.unit.to_string(),
+                                 'wdt': dtype_code(w.value.dtype.char), 'fdt': dtype_code(y.value.dtype.char),
+                                 'wstr': w.value.dtype.str}}
+    except Exception as e:  # noqa
+        out['sampled'] = outcome_err(e)
+        return out, None
+    kw = dict(akw)
+    kw.update(flag_kwargs(case))
+    if case['pri'] is not None:
+        kw['pri_header'] = header_arg(case['pri'])
+    if case['ext'] is not None:
+        kw['ext_header'] = header_arg(case['ext'])
+    try:
+        obj.to_fits(fn, wavelengths=wl, **kw)
+        out['write'] = {'ok': inspect_fits(fn)}
+    except Exception as e:  # noqa
+        out['write'] = outcome_err(e)
+        return out, None
+    try:
+        obj2 = cls.from_file(fn)
+        st = out['write']['ok']
+        wq = np.array(st['cols'][0]) * w.unit
+        if case['cls'] == 'source':
+            v = obj2(wq, flux_unit=y.unit if case['flux_unit'] else None)
+        else:
+            v = obj2(wq)
+        out['reload'] = {'ok': {'vals': np.asarray(v.value, float).tolist(),
+                                'header': {k: enc(x) for k, x in obj2.meta['header'].items()
+                                           if k not in ('COMMENT', 'HISTORY', '')}}}
+        return out, obj2
+    except Exception as e:  # noqa
+        out['reload'] = outcome_err(e)
+        return out, None
+
+
 def impl_obj_rt(case):
     """to_fits / from_file of the three classes: what was sampled, what is stored, and what the reloaded
-    object returns at the stored wavelengths (in the stored units)"""
-    import astropy.units as u
+    object returns at the stored wavelengths (in the stored units); then the loaded object is saved and loaded
+    again (laps)"""
     fn = scratch_path(case)
-    out = {'sampled': None, 'write': None, 'reload': None}
+    fns = [fn]
     try:
         with warnings.catch_warnings():
             warnings.simplefilter('ignore')
             cls, obj = build_object(case)
-            wl = None
-            if case['wl'] is not None:
-                wl = np.array([float(unq(x)) for x in case['wl']])
-                if case['wl_unit']:
-                    wl = wl * astropy_unit(case['wl_unit'])
-            akw = {}
-            if case['cls'] == 'source' and case['flux_unit'] is not None:
-                akw['flux_unit'] = case['flux_unit']
-            try:
-                w, y = obj._get_arrays(wl, **akw)
-                out['sampled'] = {'ok': {'wave': np.asarray(w.value, float).tolist(), 'flux': np.asarray(y.value, float).tolist(),
-                                         'wunit': w.unit.to_string(), 'funit': y.unit.to_string()}}
-            except Exception as e:  # noqa
-                out['sampled'] = outcome_err(e)
-                return out
-            kw = dict(akw)
-            for k, name in (('trim', 'trim_zero'), ('pad', 'pad_zero_ends')):
-                if case[k] is not None:
-                    kw[name] = case[k]
-            if case['precision'] is not None:
-                kw['precision'] = case['precision']
-            if case['pri'] is not None:
-                kw['pri_header'] = header_arg(case['pri'])
-            if case['ext'] is not None:
-                kw['ext_header'] = header_arg(case['ext'])
-            try:
-                obj.to_fits(fn, wavelengths=wl, **kw)
-                out['write'] = {'ok': inspect_fits(fn)}
-            except Exception as e:  # noqa
-                out['write'] = outcome_err(e)
-                return out
-            try:
-                obj2 = cls.from_file(fn)
-                st = out['write']['ok']
-                wq = np.array(st['cols'][0]) * w.unit
-                if case['cls'] == 'source':
-                    v = obj2(wq, flux_unit=y.unit if case['flux_unit'] else None)
-                else:
-                    v = obj2(wq)
-                out['reload'] = {'ok': {'vals': np.asarray(v.value, float).tolist(),
-                                        'header': {k: enc(x) for k, x in obj2.meta['header'].items()
-                                                   if k not in ('COMMENT', 'HISTORY', '')}}}
-            except Exception as e:  # noqa
-                out['reload'] = outcome_err(e)
+            out, obj2 = obj_one_lap(cls, obj, case, fn)
+            out['laps'] = []
+            for k in range(2, 2 + len(case.get('laps') or [])):
+                if obj2 is None or not finite(out['write']['ok']['cols'][0]) or len(out['write']['ok']['cols'][0]) < 2:
+                    break
+                fk = scratch_path(case, '_l%d.fits' % k)
+                fns.append(fk)
+                lo, obj2 = obj_one_lap(cls, obj2, obj_lap_case(case, k), fk)
+                out['laps'].append(lo)
+                if 'ok' not in (lo.get('write') or {}):
+                    break
     finally:
-        cleanup(fn)
+        cleanup(*fns)
     return out
+
+
+def obj_lap_steps(case, out):
+    return [(obj_lap_case(case, k), lo) for k, lo in enumerate(out.get('laps') or [], start=2)]
 
 
 def make_fits_file(case, fn):
@@ -416,12 +570,14 @@ def impl_fits_read(case):
                     cls = {'source': SourceSpectrum, 'bandpass': SpectralElement, 'redlaw': ReddeningLaw}[via]
                     o = cls.from_file(fn, **kw)
                     return {'ok': {'object': type(o).__name__}}
-                return {'ok': {'wunit': w.unit.to_string(), 'funit': f.unit.to_string(),
-                               'wave': np.asarray(w.value, dtype=np.float64).tolist(),
-                               'flux': np.asarray(f.value, dtype=np.float64).tolist(),
-                               'header': {k: enc(v) for k, v in hdr.items() if k not in ('COMMENT', 'HISTORY', '')}}}
+                res = {'ok': {'wunit': w.unit.to_string(), 'funit': f.unit.to_string(),
+                              'wave': np.asarray(w.value, dtype=np.float64).tolist(),
+                              'flux': np.asarray(f.value, dtype=np.float64).tolist(),
+                              'header': {k: enc(v) for k, v in hdr.items() if k not in ('COMMENT', 'HISTORY', '')}}}
             except Exception as e:  # noqa
                 return outcome_err(e)
+            res['laps'] = run_laps(case, w, f)
+            return res
     finally:
         if fp is not None:
             fp.close()
@@ -464,11 +620,13 @@ def impl_ascii(case):
                     sp = SourceSpectrum.from_file(fn, **kw)
                     return {'ok': {'object': type(sp).__name__,
                                    'points': np.asarray(sp.model.points[0], float).tolist()}}
-                return {'ok': {'wunit': w.unit.to_string(), 'funit': f.unit.to_string(),
-                               'wave': np.asarray(w.value).tolist(), 'flux': np.asarray(f.value).tolist(),
-                               'wdtype': w.value.dtype.char, 'fdtype': f.value.dtype.char, 'header': dict(hdr)}}
+                res = {'ok': {'wunit': w.unit.to_string(), 'funit': f.unit.to_string(),
+                              'wave': np.asarray(w.value).tolist(), 'flux': np.asarray(f.value).tolist(),
+                              'wdtype': w.value.dtype.char, 'fdtype': f.value.dtype.char, 'header': dict(hdr)}}
             except Exception as e:  # noqa
                 return outcome_err(e)
+            res['laps'] = run_laps(case, w, f)
+            return res
     finally:
         cleanup(fn)
 
@@ -541,7 +699,7 @@ def pairs_for_model(pairs):
 
 
 def write_line(case, wave, flux, wdt, fdt, wspec, fspec, strings, pri=None, ext=None, wcol=None, fcol=None):
-    return {'filename': 'c%07d.fits' % case['id'], 'wave': wave, 'flux': flux, 'wdt': wdt, 'fdt': fdt,
+    return {'filename': case.get('_fname') or 'c%07d.fits' % case['id'], 'wave': wave, 'flux': flux, 'wdt': wdt, 'fdt': fdt,
             'wspec': wspec, 'fspec': fspec, 'pri': pairs_for_model(pri), 'ext': pairs_for_model(ext),
             'trim': True if case['trim'] is None else case['trim'], 'pad': True if case['pad'] is None else case['pad'],
             'precision': case['precision'], 'eps': q(EPS_DEFAULT) if case.get('eps') is None else case['eps'],
@@ -613,7 +771,7 @@ def obj_model_case(case, out):
         c2['trim'] = False if case['trim'] is None else case['trim']
         c2['pad'] = False if case['pad'] is None else case['pad']
     ext = list(case['ext'] or []) + standard_ext_cards(case)
-    m = write_line(c2, qs(s['wave']), qs(s['flux']), 'f8', 'f8', {'unit': s['wunit']}, {'unit': s['funit']},
+    m = write_line(c2, qs(s['wave']), qs(s['flux']), s.get('wdt', 'f8'), s.get('fdt', 'f8'), {'unit': s['wunit']}, {'unit': s['funit']},
                    [s['wunit'], s['wunit'].upper(), s['funit'], s['funit'].upper()], case['pri'], ext, None, fcol)
     m['op'] = 'c14_roundtrip'
     m['rwcol'] = 'WAVELENGTH'
@@ -710,7 +868,8 @@ def compare(case, out, m):
     if op in ('fits_rt', 'obj_rt'):
         pad = True if case['pad'] is None else case['pad']
         if op == 'obj_rt':
-            wdt = fdt = 'f8'
+            sm = (out.get('sampled') or {}).get('ok') or {}
+            wdt, fdt = sm.get('wdt', 'f8'), sm.get('fdt', 'f8')
             if case['cls'] == 'redlaw' and case['pad'] is None:
                 pad = False
         else:
@@ -805,7 +964,7 @@ def check_headers(rep, case, out, st, prefix, standard):
     documented standard cards of THIS request: FILENAME and ORIGIN in the primary header unless the caller
     overrides them; for to_fits() TDISP1/TDISP2 and, iff the object's metadata has 'expr', EXPR in the
     extension header (the standard cards are applied after the caller's).  No card from anywhere else."""
-    want_pri = {'FILENAME': 'c%07d.fits' % case['id'], 'ORIGIN': 'synphot'}
+    want_pri = {'FILENAME': case.get('_fname') or 'c%07d.fits' % case['id'], 'ORIGIN': 'synphot'}
     for k, v, _ in (case['pri'] or []):
         want_pri[k.upper()] = enc(v)
     want_ext = {}
@@ -834,7 +993,7 @@ def oracle_fits_rt(rep, case, out):
     f_in = arr(case['flux'], case['fdt']).astype(np.float64).tolist() if fdt in ('f4', 'f8') else None
     if prec_is_explicit(case) and fdt == 'other' and case['fdt'] == 'i8':
         f_in = arr(case['flux'], 'i8').astype(np.float64).tolist()      # integer fluxes are accepted with an explicit precision
-    valid_units = all(us['kind'] in ('quantity', 'kw_unit') or
+    valid_units = all(us['kind'] in ('quantity', 'kw_unit', 'quantity_id', 'kw_unit_id') or
                       (us['kind'] == 'kw_str' and (us['s'].lower() in table_names() or verdict(us['s']) is not None
                                                    or verdict(us['s'].lower()) is not None))
                       for us in (case['wunit'], case['funit']))
@@ -913,7 +1072,7 @@ def oracle_fits_rt(rep, case, out):
         return
     # reading back
     rd = out['read']
-    uin = [unit_id(us['name']) if us['kind'] != 'kw_str' else None for us in (case['wunit'], case['funit'])]
+    uin = [spec_unit_id(us) for us in (case['wunit'], case['funit'])]
     for i, us in enumerate((case['wunit'], case['funit'])):
         if uin[i] is None:
             s = us['s']
@@ -952,11 +1111,14 @@ def oracle_obj_rt(rep, case, out):
     wr = out['write']
     trim = case['trim'] if case['trim'] is not None else case['cls'] != 'redlaw'
     pad = case['pad'] if case['pad'] is not None else case['cls'] != 'redlaw'
-    single = case['precision'] is not None and case['precision'].lower() == 'single'
+    if case['precision'] is not None:
+        single = case['precision'].lower() == 'single'
+    else:
+        single = s.get('fdt', 'f8') == 'f4'            # native precision of the sampled values
     rows = list(zip(s['wave'], s['flux']))
     if trim:
         rows = [r for r in rows if r[1] != 0]
-    if single:
+    if single and s.get('wdt', 'f8') == 'f8':
         keep = thin_reference([r[0] for r in rows], None, EPS_DEFAULT) if rows else []
         rows = [rows[i] for i in keep]
     if pad and len(rows) < 2 or not rows:
@@ -1285,6 +1447,20 @@ def wave_key_of(us):
     return {'nm': 'nm', 'micron': 'micron', 'hz': 'Hz', 'cm': 'cm', 'inversemicrons': 'micron-1'}.get(us.get('s', '').lower(), 'AA')
 
 
+def gen_laps(rng, p, obj=False):
+    """options of laps 2..n (the data are whatever the previous lap's read returned)"""
+    if rng.random() >= p:
+        return []
+    laps = []
+    for _ in range(rng.choice([1, 1, 2])):
+        lap = {'precision': rng.choice([None, None, 'single', 'double']), 'trim': rng.choice([None, False, False, True]),
+               'pad': rng.choice([None, False, False, True]), 'feed': rng.choice(['quantity', 'quantity', 'arrays'])}
+        if obj:
+            lap['flux_unit'] = rng.choice([None, None, 'flam', 'fnu'])
+        laps.append(lap)
+    return laps
+
+
 def make_fits_rt(rng, nid, nmax, wname=None, fname=None, flags=None, stream=None):
     wus = gen_unit_spec(rng, 'w', name=wname)
     fus = gen_unit_spec(rng, 'f', name=fname)
@@ -1335,7 +1511,8 @@ def make_fits_rt(rng, nid, nmax, wname=None, fname=None, flags=None, stream=None
     wcol, fcol = rng.choice(COLS)
     rw = recase(rng, wcol) if wcol and rng.random() < 0.8 else (wcol if wcol else (recase(rng, 'WAVELENGTH') if rng.random() < 0.3 else None))
     rf = recase(rng, fcol) if fcol and rng.random() < 0.8 else (fcol if fcol else (recase(rng, 'FLUX') if rng.random() < 0.3 else None))
-    return {'op': 'fits_rt', 'id': nid, 'wunit': wus, 'funit': fus, 'wdt': wdt, 'fdt': fdt,
+    layout = [rng.choice(LAYOUTS) if rng.random() < 0.45 else 'native' for _ in range(2)]
+    return {'op': 'fits_rt', 'id': nid, 'laps': gen_laps(rng, 0.45), 'layout': layout, 'wunit': wus, 'funit': fus, 'wdt': wdt, 'fdt': fdt,
             'wave': qs(waves), 'flux': qs(flux), 'precision': precision, 'trim': trim, 'pad': pad, 'eps': eps,
             'pri': gen_header(rng, True), 'ext': gen_header(rng), 'wcol': wcol, 'fcol': fcol, 'rwcol': rw, 'rfcol': rf,
             'via': rng.choice(['read_fits_spec', 'read_fits_spec', 'read_spec'])}
@@ -1382,7 +1559,8 @@ def make_obj_rt(rng, nid, nmax):
     return {'op': 'obj_rt', 'id': nid, 'cls': cls, 'pts': qs(pts), 'vals': qs(vals), 'flux_unit': flux_unit,
             'wl': wl, 'wl_unit': wl_unit, 'trim': rng.choice([None, None, True, False]),
             'pad': rng.choice([None, None, True, False]), 'precision': rng.choice([None, None, 'single', 'double']),
-            'pri': gen_header(rng), 'ext': ext, 'meta': meta}
+            'pri': gen_header(rng), 'ext': ext, 'meta': meta, 'laps': gen_laps(rng, 0.5, obj=True),
+            'wl_layout': rng.choice(LAYOUTS[:6])}
 
 
 TUNITS = ['angstroms', 'ANGSTROMS', 'Angstrom', 'ANGSTROM', 'nm', 'NM', 'micron', 'MICRON', 'Hz', 'HZ', 'flam', 'FLAM',
@@ -1459,7 +1637,8 @@ def make_fits_read(rng, nid, nmax):
         else:
             rwcol = rng.choice([None, 'nosuchcol', 'WAVE_LENGTH'])
             rfcol = rng.choice([None, 'nosuchcol', 'FLUXX'])
-    return {'op': 'fits_read', 'id': nid, 'kind': kind, 'is_str': is_str, 'via': via, 'file': file,
+    return {'op': 'fits_read', 'id': nid, 'laps': gen_laps(rng, 0.4) if via in ('read_fits_spec', 'read_spec') else [],
+            'kind': kind, 'is_str': is_str, 'via': via, 'file': file,
             'ext_sel': ext_sel, 'rwcol': rwcol, 'rfcol': rfcol}
 
 
@@ -1495,7 +1674,8 @@ def make_ascii(rng, nid, nmax):
         if fus['kind'] == 'quantity':
             fus['kind'] = 'kw_unit'
     via = rng.choice(['read_ascii_spec', 'read_ascii_spec', 'read_spec', 'source'])
-    return {'op': 'ascii', 'id': nid, 'lines': lines, 'suffix': rng.choice(['.txt', '.dat', '.tab', '']),
+    return {'op': 'ascii', 'id': nid, 'laps': gen_laps(rng, 0.4) if via != 'source' else [], 'lines': lines,
+            'suffix': rng.choice(['.txt', '.dat', '.tab', '']),
             'wunit': wus, 'funit': fus, 'via': via}
 
 
@@ -1598,10 +1778,15 @@ def tags(case, out):
             t.append('read:' + (out['read'].get('err') or 'ok'))
         t.append('flags:trim=%s,pad=%s' % (case['trim'], case['pad']))
         t.append('dtype:%s/%s,precision=%s' % (case['wdt'], case['fdt'], (case['precision'] or 'None').lower()))
-        t.append('wunit:' + (case['wunit'].get('name') or case['wunit']['kind']))
-        t.append('funit:' + (case['funit'].get('name') or case['funit']['kind']))
+        t.append('wunit:' + (case['wunit'].get('name') or case['wunit'].get('id') or case['wunit']['kind']))
+        t.append('funit:' + (case['funit'].get('name') or case['funit'].get('id') or case['funit']['kind']))
+        t.append('lap:%d' % case.get('_lap', 1))
+        if case.get('layout') and not case.get('_lap'):
+            t.append('layout:%s' % case['layout'][0])
+            t.append('layout:%s' % case['layout'][1])
     elif op == 'obj_rt':
         t.append('obj:%s' % case['cls'])
+        t.append('objlap:%d' % case.get('_lap', 1))
         t.append('reload:' + ((out.get('reload') or {}).get('err') or ('ok' if out.get('reload') else 'n/a')))
     elif op == 'fits_read':
         t.append('file:%s,%s' % (case['kind'], 'name' if case['is_str'] else 'fileobj'))
@@ -1624,15 +1809,21 @@ class _StepReport:
     """what an oracle sees while it judges step k of a history: a failure is recorded with the history up to
     and including that step as its case, so that the replay reproduces the state the step ran in"""
 
-    def __init__(self, rep, hist, k):
-        self.rep, self.hist, self.k = rep, hist, k
+    def __init__(self, rep, hist, k, lap=None):
+        self.rep, self.hist, self.k, self.lap = rep, hist, k, lap
+
+    def where(self):
+        n = self.k + 1
+        t = 'step %d of a %d-step history: ' % (n, n) if n > 1 else ''
+        if self.lap:
+            t += 'lap %d (what the previous lap read back is written again): ' % self.lap
+        return t
 
     def prefix(self):
         return {'op': 'history', 'id': self.hist['id'], 'steps': self.hist['steps'][:self.k + 1]}
 
     def oracle_fail(self, sig, msg, case, impl=None):
-        n = self.k + 1
-        self.rep.oracle_fail(sig, ('step %d of a %d-step history: ' % (n, n) if n > 1 else '') + msg, self.prefix(), impl)
+        self.rep.oracle_fail(sig, self.where() + msg, self.prefix(), impl)
 
 
 def as_history(case):
@@ -1650,6 +1841,14 @@ def process(rep, cases, with_model=True):
     for hi, (h, o) in enumerate(zip(hists, impl)):
         for k, (c, so) in enumerate(zip(h['steps'], o['steps'])):
             flat.append((hi, k, c, so))
+            if c['op'] == 'obj_rt':
+                derived = obj_lap_steps(c, so)
+            elif c['op'] in ('fits_rt', 'fits_read', 'ascii') and isinstance(so, dict):
+                derived = lap_steps(c, so)
+            else:
+                derived = []
+            for dc, do in derived:         # later laps of the same step: requests of their own
+                flat.append((hi, k, dc, do))
     model = [None] * len(flat)
     if with_model:
         mcases, midx = [], []
@@ -1662,13 +1861,12 @@ def process(rep, cases, with_model=True):
             model[i] = m
     for (hi, k, c, o), m in zip(flat, model):
         h = hists[hi]
-        sr = _StepReport(rep, h, k)
+        sr = _StepReport(rep, h, k, c.get('_lap'))
         rep.count(c, nontrivial=nontrivial(c, o), tags=tags(c, o) + ['history:step%d' % (k + 1)])
         if m is not None:
             r = compare(c, o, m)
             if r:
-                n = k + 1
-                rep.mismatch(c['op'], ('step %d of a %d-step history: ' % (n, n) if n > 1 else '') + r, sr.prefix(), o, m)
+                rep.mismatch(c['op'], sr.where() + r, sr.prefix(), o, m)
         oracle(sr, c, o)
     return impl, model
 
